@@ -258,7 +258,8 @@ def extra_checks(tier):
 
 def classify(suite, desc):
     # listed differences: a handler raised (exception policies differ) — only where that is what happened
-    if desc.get("raised"):
+    fes = DGRAM if desc.get("dgram") else STREAM
+    if desc.get("raised") and all(fe in desc["raised"] for fe in fes):
         return "F-C17-exception-policy"
     return None
 
